@@ -25,7 +25,9 @@ META = dict(
         "rollback under is_ok(); R4 the stop decision — check_stop stops only under is_accepting && "
         "(!can_advance || pending_eos); consume_token accepts EOS only under scan_eos() or "
         "is_accepting(); R5 the stop controller returns nothing once stopped, emits text only through "
-        "valid_utf8_len-truncated / lossily converted buffers and contains no assertion on token bytes."
+        "valid_utf8_len-truncated / lossily converted buffers and contains no assertion on token bytes; R6 "
+        "mask, commit, stop decision and rollback all consult the same full set of end-of-sequence tokens "
+        "(the primary-only accessor has exactly two reasoned users)."
     ),
     not_decided=(
         "the exact moment of stopping; that the assembled text is a complete string of the grammar; stop-"
@@ -253,6 +255,30 @@ def run(ctx):
         still = L.dominated_by_cut(ct, push, g) if g else push
         ctx.check(bool(g) and not still, "C18-R4", "consume_token:eos-arm-only-for-eos", "the EOS arm is entered only for EOS tokens",
                   "consume_token's EOS shortcut applies to non-EOS tokens", site=ct.where(push[0]))
+
+    # ------------------------------------------------------------------ R6 one EOS set for every decision
+    # a vocabulary can have several end-of-sequence tokens; mask, commit, stop decision and rollback must agree on the set
+    for fn in ("check_stop", "consume_token", "rollback", "compute_mask_inner"):
+        b = ctx.body(TP + "::" + fn)
+        scope = [b] + [P.bodies[c] for c in P.closures_of(b.id) if c in P.bodies]
+        reads = set()
+        for sb in scope:
+            reads |= P.own_effects(sb)[2]
+        ctx.check((TP, "eos_tokens") in reads, "C18-R6", "eos-set:" + fn, "%s decides end-of-sequence from TokenParser.eos_tokens (the full set)" % fn,
+                  "TokenParser::%s no longer consults the full EOS token set (eos_tokens): with a multi-EOS vocabulary the mask/commit and the "
+                  "stop decision disagree (a secondary EOS is accepted but no stop is reported)" % fn, site=b.where())
+    prim = set(c for c in P.callers_of("toktrie::toktree::TokTrie::eos_token") if c.startswith("llguidance::"))
+    PRIM_OK = {
+        "llguidance::earley::parser::ParserState::compute_bias": "EOS-terminated gen() lexemes are ended by the primary EOS token",
+        "llguidance::ffi_par::par_compute_mask_inner::{closure#0}::{closure#0}": "batch API marks the primary EOS bit of a stopped constraint",
+    }
+    for c in sorted(prim):
+        ctx.check(c in PRIM_OK, "C18-R6", "primary-eos-only:" + c.replace("llguidance::", ""), PRIM_OK.get(c, ""),
+                  "%s decides on the *primary* EOS token only (TokTrie::eos_token()) while mask and commit honour every EOS token: "
+                  "the sites disagree for vocabularies with several EOS tokens" % c, site=P.bodies[c].where())
+    ii = ctx.body(TP + "::init_inner")
+    ctx.check(bool(ii.call_blocks("toktrie::toktree::TokTrie::eos_tokens")), "C18-R6", "eos-set:initialised-from-trie",
+              "TokenParser.eos_tokens is initialised from TokTrie::eos_tokens()", "init_inner no longer takes the EOS set from the trie", site=ii.where())
 
     # ------------------------------------------------------------------ R5 stop controller
     c = ctx.body(SC + "::commit_token")
